@@ -22,7 +22,7 @@ def judge(req, impl, f, prev):
 
 
 SPEC = dict(
-    prop='C03', lean_mod='Rivia.Props.C03A,Rivia.Props.C03B,Rivia.Props.C03C', gen=gen, judge=judge,
+    prop='C03', lean_mod='Rivia.Props.C03,Rivia.Props.C03A,Rivia.Props.C03B,Rivia.Props.C03C', gen=gen, judge=judge,
     rule='seeded random histories incl. invalid and failing calls and an abusive stream (garbage arguments, ops on / and on a removed cwd); after EVERY call the implementation state dump '
          '(= model state, checked) is fed to the Lean invariant `Spec.invViolation` (the proved predicate used as a runtime monitor); distinct = distinct (pre-state, call) pairs',
     assumptions=['HashMap/HashSet as finite maps/sets with unspecified order'],
